@@ -3,10 +3,10 @@ package impl
 import (
 	"errors"
 	"fmt"
+	"math"
 	"regexp"
 	"strconv"
 	"strings"
-	"time"
 
 	"github.com/verily-src/fhirpath-go/fhirpath/internal/expr"
 	"github.com/verily-src/fhirpath-go/fhirpath/system"
@@ -636,7 +636,7 @@ func isValidUnitConversion(outputFormat string) bool {
 }
 
 func convertDuration(input string, outputFormat string) (string, error) {
-	duration, err := parseHumanDuration(input)
+	seconds, err := parseHumanDuration(input)
 	if err != nil {
 		return "", err
 	}
@@ -644,23 +644,26 @@ func convertDuration(input string, outputFormat string) (string, error) {
 	var convertedValue float64
 	switch outputFormat {
 	case "years":
-		convertedValue = duration.Hours() / (24 * 365)
+		convertedValue = float64(seconds) / (365 * 86400)
 	case "months":
-		convertedValue = duration.Hours() / (24 * 30)
+		convertedValue = float64(seconds) / (30 * 86400)
 	case "days":
-		convertedValue = duration.Hours() / 24
+		convertedValue = float64(seconds) / 86400
 	case "hours":
-		convertedValue = duration.Hours()
+		convertedValue = float64(seconds) / 3600
 	case "minutes":
-		convertedValue = duration.Minutes()
+		convertedValue = float64(seconds) / 60
 	case "seconds":
-		convertedValue = duration.Seconds()
+		convertedValue = float64(seconds)
 	}
 
 	return fmt.Sprintf("%.0f %s", convertedValue, outputFormat), nil
 }
 
-func parseHumanDuration(input string) (time.Duration, error) {
+// parseHumanDuration returns the number of seconds that a text like
+// "2 years" or "1 hour 30 minutes" amounts to (1 year = 365 days, 1 month = 30
+// days). An amount that does not fit 64 bits of seconds is an error.
+func parseHumanDuration(input string) (int64, error) {
 	re := regexp.MustCompile(`(\d+)\s*(\w+)`)
 	matches := re.FindAllStringSubmatch(input, -1)
 	totalSeconds := int64(0)
@@ -671,24 +674,29 @@ func parseHumanDuration(input string) (time.Duration, error) {
 			return 0, err
 		}
 
+		var factor int64
 		unit := strings.ToLower(match[2])
 		switch unit {
 		case "second", "seconds":
-			totalSeconds += value
+			factor = 1
 		case "minute", "minutes":
-			totalSeconds += value * 60
+			factor = 60
 		case "hour", "hours":
-			totalSeconds += value * 3600
+			factor = 3600
 		case "day", "days":
-			totalSeconds += value * 86400
+			factor = 86400
 		case "month", "months":
-			totalSeconds += value * 30 * 86400 // Assuming one month is 30 days
+			factor = 30 * 86400 // Assuming one month is 30 days
 		case "year", "years":
-			totalSeconds += value * 365 * 86400 // Assuming one year is 365 days
+			factor = 365 * 86400 // Assuming one year is 365 days
 		default:
 			return 0, fmt.Errorf("invalid unit: %s", unit)
 		}
+		if value > (math.MaxInt64-totalSeconds)/factor {
+			return 0, fmt.Errorf("amount out of range: %s %s", match[1], unit)
+		}
+		totalSeconds += value * factor
 	}
 
-	return time.Duration(totalSeconds) * time.Second, nil
+	return totalSeconds, nil
 }
